@@ -330,6 +330,25 @@ PROPS = {
                         "(they need a wired agent; C10 drives didexchange end to end)",
                         "resource use is bounded by the per-case timeout only; allocation is not measured"],
     },
+    "C10": {
+        "lean_files": ["AriesVerif/C10/Model.lean", "AriesVerif/C10/Props.lean", "AriesVerif/C10/Drv.lean"],
+        "lake_targets": ["AriesVerif"],
+        "classify": lambda inp, out: ["cfg:" + inp.split("|")[0]] + ["op:" + o.split(" ")[0] for o in inp.split("|")[1].split(";")] +
+                                     ["out:" + o.split(" ")[0][:12] for o in out.split("|")],
+        "nontrivial": lambda inp, out: "completed/completed" in out,
+        "shrink": {"field_sep": "|", "op_sep": ";", "fields": [1]},
+        "thorough_seeds": 1,
+        "case_timeout": 240,
+        "rule": "three real aries.Framework agents on an in-process bus (key type x key agreement type x media type profile): "
+                "didexchange invitations run to completion, two exchanges started together (messages interleave), basic "
+                "messages over the connections with the (myDID, theirDID) the receiver's handler is given, then third-party "
+                "traffic: a forged didexchange request attaching a document under the peer's DID, an anoncrypt message whose "
+                "body names the peer; resolve(TheirDID) before and after; non-trivial = an exchange completed",
+        "trusted_base": ["the bus delivers synchronously (no loss, no reordering beyond what the goroutines of the services do)",
+                         "agent start-up, transports, retries and scheduling inside one agent are not modelled (partial)"],
+        "assumptions": ["didexchange invitations only (out-of-band, implicit and legacy-connection invitations are not driven)",
+                        "waiting for a state is polling with a 4 s limit"],
+    },
     "C14": {
         "lean_files": ["AriesVerif/C14/Model.lean", "AriesVerif/C14/Props.lean", "AriesVerif/C14/Drv.lean"],
         "lake_targets": ["AriesVerif"],
